@@ -1,7 +1,6 @@
 """C06: the validator accepts every consistent schema and reports (rather than crashes on) every broken reference."""
 import contextlib
 import copy
-import hashlib
 import io
 import json
 import shutil
@@ -808,10 +807,6 @@ def eval_groups(exprs, tag, shard, timeout=1500):
 
 # ---------------------------------------------------------------------------------------------------------------------
 
-def short(text):
-	return hashlib.sha256(text.encode('utf8')).hexdigest()[:12]
-
-
 def compare(check, name, case_id, result, model_pair, text):
 	pre, post = model_pair
 	if result['pre'] != pre:
@@ -840,6 +835,9 @@ def run(check, unrecognised):
 		check.notes.append(f'anchors not recognised, pinned (= repaired) hole values used for them: {unrecognised["ValidateOps"]}')
 		for key in unrecognised['ValidateOps']:
 			check.broken.append(f'shape:{key}')
+	check.extra['core_breakage_kinds'] = sorted(CORE_KINDS)
+	check.extra['partial'] = ['completeness_initializer_constant_partial (existence of the error for an unknown / wrongly typed initializer constant: '
+		'only exercised by the correspondence)']
 	check.prove('C06.v')
 
 	impl = Impl()
